@@ -218,16 +218,16 @@ theorem faultText_frontEnd :
   refine itemsOfLines_cons (toks := ["dw", "7"]) (by decide) (by decide) (by decide) (by decide) ?_
   exact itemsOfLines_cons (toks := ["end:"]) (by decide) (by decide) (by decide) (by decide) itemsOfLines_nil
 
-theorem good_lui_at (c : Bool) (line : Line) :
-    GoodItem exHooks c (.instr line (.u "lui" (.str "x5") (.arith "74565"))) := by
+theorem good_lui_at (c : Bool) :
+    GoodItem exHooks c (.instr (sl 2 "lui x5, 74565") (.u "lui" (.str "x5") (.arith "74565"))) := by
   refine .instr _ _ (goodInstr_of_canonical rfl ?_ ?_ ?_)
   · exact resolves_lit (v := 74565) (bs := [183, 82, 52, 18]) rfl rfl (litImm_dec _ "74565" 74565 (by decide) (by decide)) (by decide)
   · exact Or.inr ⟨_, 74565, rfl, litImm_dec _ "74565" 74565 (by decide) (by decide)⟩
   · intro _
     exact Or.inr (Or.inl (by decide))
 
-theorem good_addi_at (c : Bool) (line : Line) :
-    GoodItem exHooks c (.instr line (.i "addi" (.str "x9") (.str "x9") (.arith "1") false)) := by
+theorem good_addi_at (c : Bool) :
+    GoodItem exHooks c (.instr (sl 3 "addi x9, x9, 1") (.i "addi" (.str "x9") (.str "x9") (.arith "1") false)) := by
   refine .instr _ _ (goodInstr_of_canonical rfl ?_ ?_ ?_)
   · exact resolves_lit (v := 1) (bs := [147, 132, 20, 0]) rfl rfl (litImm_dec _ "1" 1 (by decide) (by decide)) (by decide)
   · exact Or.inr ⟨_, 1, rfl, litImm_dec _ "1" 1 (by decide) (by decide)⟩
@@ -240,8 +240,8 @@ theorem faultPre_good (c : Bool) : ∀ y ∈ faultPre, GoodItem exHooks c y := b
   simp only [faultPre, List.mem_cons, List.not_mem_nil, or_false] at hy
   rcases hy with rfl | rfl | rfl
   · exact .label _ _
-  · exact good_lui_at c _
-  · exact good_addi_at c _
+  · exact good_lui_at c
+  · exact good_addi_at c
 
 theorem faultPost_good (c : Bool) : ∀ y ∈ faultPost, GoodItem exHooks c y := by
   intro y hy
